@@ -26,7 +26,15 @@ def main():
             sys.exit(mod.replay(a.replay))
         print("replay: re-run `python3 check.py %s --tier %s` with VERIF_SEED from %s/case.json" % (prop, t, a.replay))
         sys.exit(0)
-    mod.run(t)
+    try:
+        mod.run(t)
+    except SystemExit:
+        raise
+    except BaseException:   # a crash of the machinery is never a verdict about the property
+        import traceback
+        traceback.print_exc()
+        print("HARNESS-ERROR: exception in the check driver (see stderr)", flush=True)
+        sys.exit(3)
 
 
 if __name__ == "__main__":
